@@ -54,8 +54,8 @@ theorem slices_fold {K : Type} (z : K) {j n : ℕ} (hj : j < n) (vec : Array K)
     refine ⟨_, _, rfl, ?_, ?_, ?_, ?_⟩
     · simp [hhalf]
     · simp [hhalf]
-    · intro r hr; simp [Array.getD_eq_getD_getElem?, Array.getElem?_replicate, hhalf, hr]
-    · intro r hr; simp [Array.getD_eq_getD_getElem?, Array.getElem?_replicate, hhalf, hr]
+    · intro r hr; simp [Array.getD_eq_getD_getElem?, hhalf, hr]
+    · intro r hr; simp [Array.getD_eq_getD_getElem?, hhalf, hr]
   | succ k ih =>
     obtain ⟨p0, p1, hf, h0, h1, hp0, hp1⟩ := ih (by omega)
     have hkb : k < 2 ^ n := by omega
